@@ -159,7 +159,7 @@ def run_audit(prop):
             results[m.group(1)] = sorted(a.strip() for a in m.group(2).split(",") if a.strip())
         for m in re.finditer(r"'(\S+)' does not depend on any axioms", flat):
             results[m.group(1)] = []
-        if r.returncode != 0 or "error" in flat:
+        if r.returncode != 0 or re.search(r": error[:(]", flat):
             errors.append(os.path.basename(path) + ": " + flat[-600:])
     return requested, results, errors
 
